@@ -218,6 +218,8 @@ int main(int argc, char** argv) {
     int big = (argc > 5 ? atoi(argv[5]) : 0);
     if (config == 1) mi_option_set(mi_option_disallow_arena_alloc, 1);
     if (config == 2) mi_option_set(mi_option_arena_reserve, 32 * 1024);     // KiB: one 32 MiB block per arena
+    if (config == 3) mi_option_set(mi_option_arena_eager_commit, 0);        // arena memory committed on demand: segments are returned partially committed
+    if (config == 4) { mi_option_set(mi_option_arena_eager_commit, 0); mi_option_set(mi_option_eager_commit, 0); }
     printf("T config config=%d big=%d overcommit=%d purge_delay=%ld\n", config, big, _mi_os_has_overcommit() ? 1 : 0, mi_option_get(mi_option_purge_delay));
     for (int k = 1; k <= reps; k++) { one_rep(big); report(config, k, big); }
   }
